@@ -290,6 +290,8 @@ def run(tier, replay=None):
                           "Handover.tla (%s, MAX_FDS_OUT=%d, MAX_BYTES_OUT=%d) violates %s" % (
                               name, consts["maxfds"], consts["bufbytes"], r["violated"]), r["out"][-6000:],
                           name="spec_%s.txt" % name)
+            if rep.violations and rep.violations[-1][0].startswith("spec:"):
+                rep.violations.insert(0, rep.violations.pop())     # design-level verdicts first
         if name == "mc_handover" and thorough and not r["violated"]:
             vlib.require_actions_covered(r, need)
     pool.shutdown()
